@@ -165,6 +165,12 @@ func stressRun(dur time.Duration, goroutines int, seed uint64, outFile string) i
 					adm[i][o] = true
 				}
 				admCfg[cfgKeyOf(m.Config())] = true
+				// Reconfigure(Config()) is one of the operator calls: the first round trip
+				// may legitimately collapse redundant patterns (C06), so the normal form
+				// after a round trip is admissible too (it is a fixpoint from then on)
+				if m2, err := cors.NewMiddleware(*m.Config()); err == nil {
+					admCfg[cfgKeyOf(m2.Config())] = true
+				}
 			}
 		}
 		m, _, _ := newMW(cfgs[0])
